@@ -118,8 +118,12 @@ def check_state(rec, B, tg, tp, r, subsets, rng, dense=True, extras=True):
             rec.check("ent.full", abs(v - r) < 1e-6, case, r > 0, expected=r, observed=v, tags=tags)
         # other forms of the same subsystem: tuple, ndarray of indices, permuted indices, boolean mask
         forms = [("tuple", tuple(A)), ("ndarray", np.array(A)), ("perm", [A[i] for i in rng.permutation(len(A))]), ("mask", _mask_arg(B, A, N))]
+        # a qubit named twice is still one qubit; indices may count from the end (numpy / torch index semantics, both packages)
+        dup = A + [A[int(rng.integers(len(A)))] for _ in range(max(1, N - len(A)))]
+        forms += [("repeated", dup), ("repeated.perm", [dup[i] for i in rng.permutation(len(dup))]),
+                  ("negative", [a - N for a in A]), ("mixed.sign", [a - N if k % 2 else a for k, a in enumerate(A)])]
         if N > 300:
-            forms = forms[1::2]
+            forms = forms[1:4:2]
         elif B.name == "np":
             forms += [("np.int64 list", [np.int64(a) for a in A]), ("bool list", [bool(q in A) for q in range(N)]),
                       ("int32 array", np.array(A, dtype=np.int32))]
@@ -128,6 +132,8 @@ def check_state(rec, B, tg, tp, r, subsets, rng, dense=True, extras=True):
                       if max(A) <= np.iinfo(dt).max]
         for nm, arg in forms:
             before_arg = np.array(B.np(arg) if nm in ("mask", "ndarray") else arg).copy()
+            if nm in ("negative", "mixed.sign") and B.name == "torch" and rng.integers(2):
+                arg = B.torch.tensor(arg)
             ok, y = rec.attempt("ent.mask_vs_index", dict(case, form=nm), lambda: S.entropy(arg))
             if ok:
                 rec.check("ent.mask_vs_index", abs(_val(B, y) - v) < 1e-6, dict(case, form=nm), nt, expected=v, observed=_val(B, y), tags=tags)
@@ -315,7 +321,7 @@ def run_huge(shard, rec, B):
     rng = gen.rng_for(rec)
     for N in shard["Ns"]:
         h = N // 2
-        for fam in (("ghz.alldense",) if rec.tier == "quick" else ("ghz", "ghz.alldense", "bell")):
+        for fam in (("ghz.alldense",) if rec.tier == "quick" or N > 3000 else ("ghz", "ghz.alldense", "bell")):
             tg, tp = ghz_tableau(N) if fam.startswith("ghz") else bell_tableau(2 * h, "interleaved")
             M = tg.shape[1] // 2
             if fam.startswith("ghz"):  # the all-Z generator (product of Z_{2i}Z_{2i+1}) next to the all-X one: overlap N on every region
@@ -343,6 +349,6 @@ def run_huge(shard, rec, B):
             rec.bump("huge_tableaux_built")
             rec.note("huge_max_row_weight_%s_%d" % (fam, M), int((O.letters(tg[:M]) != 0).sum(-1).max()))
             subs = [list(range(M - 1)), gen.rand_subset(rng, M, M // 2), list(range(1, M)), list(range(M // 2)), list(range(8)), [M - 1]]
-            k = 2 if rec.tier == "quick" else 6     # the port's GF(2) rank is a python loop: seconds per call at this size
+            k = 2 if rec.tier == "quick" or N > 3000 else 6     # the port's GF(2) rank is a python loop: seconds per call at this size
             check_state(rec, B, tg, tp, 0, subs[:k], rng, dense=False, extras=False)
             check_state(rec, B, tg, tp, int(rng.integers(1, 9)), subs[:max(1, k // 3)], rng, dense=False, extras=False)
